@@ -13,6 +13,9 @@ import (
 	"fmt"
 	"io"
 	"math/rand"
+	"os"
+	"os/exec"
+	"path/filepath"
 	"sort"
 	"strconv"
 	"strings"
@@ -60,7 +63,7 @@ func c17ParseSpec(s string) (sp c17Spec, ok bool) {
 	case "zst":
 		ok = sp.variant == "" || sp.variant == "nocrc"
 	}
-	okf := false
+	okf := sp.format == "ecopcr"
 	for _, f := range c17Formats {
 		okf = okf || f == sp.format
 	}
@@ -418,7 +421,7 @@ func c17GenMulti(rng *rand.Rand, tier string, emit func(string)) {
 				for bit := 0; bit < 8; bit++ {
 					// the identification bytes of every member (the damage that looks like "trailing garbage") always,
 					// the other header / trailer bits in thorough
-					if allBits || p-off < 4 || rng.Intn(16) == 0 {
+					if allBits || p-off < 3 || (p-off == 3 && bit < 5) || rng.Intn(24) == 0 {
 						line(fmt.Sprintf("flip=%d", p*8+bit))
 					}
 				}
@@ -443,9 +446,9 @@ func c17GenMulti(rng *rand.Rand, tier string, emit func(string)) {
 	}
 	// (a) gzip, file path and stdin path
 	members("file", "gz+r3", "nrec=6", 6, true, thorough, 10)
-	members("file", "gz+i2", "nrec=4", 4, thorough, thorough, 10)
 	members("kseq", "gz+r3", "nrec=6", 6, thorough, thorough, 10)
 	if thorough {
+		members("file", "gz+i2", "nrec=4", 4, true, true, 10)
 		members("file", "gz+b64", "nrec=3", 3, true, true, 20)
 		members("file", "gz+r4", "nrec=8", 8, true, false, 10)
 		members("kseq", "gz+i3", "fq=4", 4, true, true, 10)
@@ -455,8 +458,8 @@ func c17GenMulti(rng *rand.Rand, tier string, emit func(string)) {
 		members("file", "gz+b48", "nrec=12", 12, false, false, 200)
 		members("kseq", "gz+i4", "nrec=9", 9, true, false, 60)
 	} else {
+		members("file", "gz+i2", "nrec=4", 4, false, false, 0)
 		members("file", "gz+b96", "nrec=3", 3, false, false, 10)
-		members("kseq", "gz+b96", "nrec=3", 3, false, false, 10)
 	}
 	// concatenated bzip2 / xz / zstd streams
 	for _, codec := range []string{"bz2", "xz", "zst"} {
@@ -513,6 +516,70 @@ func c17GenMulti(rng *rand.Rand, tier string, emit func(string)) {
 				emit(fmt.Sprintf("file %s nrec=2 byte=%d n=0 err=eof", spec, rng.Intn(len(z))))
 			}
 			emit(fmt.Sprintf("file %s nrec=2 none n=0 err=eof", spec))
+		}
+	}
+}
+
+// a command that does not end is a failure of the property: the ecoPCR cases, whose reader used to spin on a
+// truncated header, are given 20 s, the others 60 s
+func c17CmdTimeout(mode string) time.Duration {
+	if mode == "ecopcr" {
+		return 20 * time.Second
+	}
+	return 60 * time.Second
+}
+
+// c17EcoOK: does the ecoPCR reader of the tree under check end normally on a complete file?  (It used to die of a nil
+// pointer dereference in its own goroutine at the end of every file, which the harness cannot recover from: the
+// in-process ecoPCR cases are emitted only when this probe, run in a subprocess, passes; the `cmd … ecopcr` cases always.)
+func c17EcoOK() bool {
+	bin, err := repoCommandC17("obiconvert")
+	if err != nil {
+		return false
+	}
+	path := c17TmpFile("t.ecopcr", c17FormatData("ecopcr", 2))
+	defer os.RemoveAll(filepath.Dir(path))
+	cmd := exec.Command(bin, "--ecopcr", path)
+	var out bytes.Buffer
+	cmd.Stdout = &out
+	done := make(chan error, 1)
+	if cmd.Start() != nil {
+		return false
+	}
+	go func() { done <- cmd.Wait() }()
+	select {
+	case err := <-done:
+		return err == nil && bytes.Count(out.Bytes(), []byte(">")) == 2
+	case <-time.After(20 * time.Second):
+		cmd.Process.Kill()
+		return false
+	}
+}
+
+// c17GenEco: ecoPCR files (ReadEcoPCR, reached by `--ecopcr` and by the format guesser)
+func c17GenEco(rng *rand.Rand, tier string, emit func(string)) {
+	z := c17Build(c17Spec{codec: "gz", format: "ecopcr"}, 3).z
+	emit("cmd obiconvert ecopcr gz:ecopcr nrec=3 none")
+	emit(fmt.Sprintf("cmd obiconvert ecopcr gz:ecopcr nrec=3 cut=%d", 30+rng.Intn(60)))       // inside the header
+	emit(fmt.Sprintf("cmd obiconvert ecopcr gz:ecopcr nrec=3 cut=%d", len(z)-1-rng.Intn(60))) // inside the records
+	emit(fmt.Sprintf("cmd obiconvert file gz:ecopcr nrec=3 cut=%d", len(z)-1-rng.Intn(60)))
+	emit(fmt.Sprintf("cmd obiconvert ecopcr bz2:ecopcr nrec=3 cut=%d", 40+rng.Intn(100)))
+	if !c17EcoOK() {
+		stat("ecopcr-reader-broken")
+		return
+	}
+	codecs, step := []string{"gz"}, 4
+	if tier == "thorough" {
+		codecs, step = []string{"gz", "bz2", "xz", "zst"}, 1
+	}
+	for _, codec := range codecs {
+		z := c17Build(c17Spec{codec: codec, format: "ecopcr"}, 2).z
+		emit(fmt.Sprintf("file %s:ecopcr nrec=2 none n=0 err=eof", codec))
+		for k := 1 + rng.Intn(step); k < len(z); k += step {
+			emit(fmt.Sprintf("file %s:ecopcr nrec=2 cut=%d n=0 err=eof", codec, k))
+		}
+		for i := 0; i < 6; i++ {
+			emit(fmt.Sprintf("file %s:ecopcr nrec=2 flip=%d n=0 err=eof", codec, 64+rng.Intn(len(z)*8-64)))
 		}
 	}
 }
